@@ -503,6 +503,55 @@ def run_c16(tier, seed, wd, info, verdict):
         verdict.violation("%s:%s" % (violated, extra[1][:120]), "generation %s: rejected by DkgTrace invariant %s %s" % (sid, violated, extra[1]),
                           dict(scenario=sc, trace=seg[:60], invariant=violated, module="DkgTrace"))
     res["contribution_replies_checked"] = npairs
+    # (d) CONCURRENT ARRIVAL: for a while genuine peers run prepare / contribute / abort against one instance while callers that are
+    #     not peers (a fully permitted ordinary client on several streams at once, an unknown name, no name) send every kind of message
+    #     - new names and the names the peers are using right now.  No order between the calls is known and none is needed: a non-peer
+    #     is refused and handed no share whatever the interleaving (SessionTrace.ConcCall); every contribution reply to a peer carries
+    #     that peer's share and nobody else's (DkgTrace.ContribReply).
+    ssc = [dict(id="C16-storm-%d" % i, ids=ids, n=len(ids), t=2, initiator=ids[0], account="DW/x", generate=False, storm_ms=1500 if tier == "quick" else 6000, storm_workers=8)
+           for i, ids in enumerate(([1, 2, 3], [7, 8, 9, 10]) if tier == "quick" else ([1, 2, 3], [7, 8, 9, 10], [1, 2], [3, 5, 2 ** 40], [1, 2, 3, 4, 5]))]
+    sby = run_parallel(ssc, wd, "c16storm", workers=len(ssc))
+    slines, sindex, dlines, dindex = [], [], [], []
+    nconc = nrep = 0
+    for sc in ssc:
+        evs = sby.get(sc["id"])
+        if evs is None:
+            raise Inconclusive("storm scenario %s produced no events" % sc["id"])
+        end = [e for e in evs if e["ev"] == "StormEnd"]
+        if not end or end[0]["peer_ok"] < 20:
+            raise Inconclusive("storm %s: the peers' own messages were not served (%s)" % (sc["id"], end))
+        peers = {"signer-%d" % i for i in sc["ids"]}
+        start, dstart = len(slines) + 1, len(dlines) + 1
+        slines.append(dict(ev="Begin", sc=sc["id"]))
+        dlines.append(dict(ev="Begin", sc=sc["id"], n=sc["n"], t=sc["t"], probe=False))
+        for e in evs:
+            if e["ev"] == "ConcCall":
+                nconc += 1
+                slines.append(dict(ev="ConcCall", caller=e["caller"], peer=e["caller"] in peers, msg=e["msg"], account=e["account"],
+                                   result="ok" if e["result"] == "ok" else "refused", got_share=bool(e["got_share"])))
+            elif e["ev"] == "ContribReply":
+                nrep += 1
+                dlines.append(clean(e))
+        if end[0]["crashed"]:
+            slines.append(dict(ev="ConcCall", caller="(instance crashed)", peer=False, msg="crash", account="", result="ok", got_share=False))
+        sindex.append((start, len(slines), sc["id"]))
+        dindex.append((dstart, len(dlines), sc["id"]))
+    if nconc < 200 or nrep < 20:
+        raise Inconclusive("storm: only %d non-peer calls / %d contribution replies were observed" % (nconc, nrep))
+    for module, ls, ix, inv in (("SessionTrace", slines, sindex, ["PeersOnly"]), ("DkgTrace", dlines, dindex, ["PeersOnly"])):
+        ok, violated, pos, extra = validate(module, ls, inv, wd, name=module + "Storm")
+        tr = extra if ok else extra[0]
+        info["states"] += tr.distinct
+        info["transitions"] += tr.generated
+        if not ok:
+            sid = locate(ix, pos)
+            sc = [s_ for s_ in ssc if s_["id"] == sid][0]
+            bad_line = ls[pos - 2] if pos and pos >= 2 else None
+            verdict.violation("%s:concurrent:%s" % (violated, (bad_line or {}).get("msg", "reply")),
+                              "concurrent key-generation messages from peers and non-peers (%s): rejected by %s invariant %s at %s %s" % (sid, module, violated, bad_line, extra[1]),
+                              dict(scenario=sc, trace=[bad_line], invariant=violated, module=module, storm=True))
+    res["concurrent_arrival"] = dict(scenarios=len(ssc), non_peer_calls_made=sum(e["non_peer_calls"] for sc_ in ssc for e in sby[sc_["id"]] if e["ev"] == "StormEnd"),
+                                     non_peer_calls_in_trace=nconc, contribution_replies_to_peers=nrep)
     # (c) the same boundary over the REAL transport: every key-generation method x every kind of caller credential (no certificate,
     #     foreign / self-signed / expired certificates, genuine client certificates, genuine certificates followed by an unverified
     #     one that names a peer) x every server certificate set-up; only a caller whose VERIFIED name is a peer's may get anything
@@ -731,6 +780,28 @@ def replay(prop, path):
     wd = workdir(prop + "-replay")
     try:
         sc = obj["scenario"]
+        if obj.get("storm"):
+            # timing-dependent: the same storm is run again, several times
+            for attempt in range(4):
+                evs, rc, err = run_dkgdrv([sc], wd, "replay%d" % attempt)
+                peers = {"signer-%d" % i for i in sc["ids"]}
+                sl, dl = [dict(ev="Begin", sc=sc["id"])], [dict(ev="Begin", sc=sc["id"], n=sc["n"], t=sc["t"], probe=False)]
+                for e in evs:
+                    if e["ev"] == "ConcCall":
+                        sl.append(dict(ev="ConcCall", caller=e["caller"], peer=e["caller"] in peers, msg=e["msg"], account=e["account"],
+                                       result="ok" if e["result"] == "ok" else "refused", got_share=bool(e["got_share"])))
+                    elif e["ev"] == "ContribReply":
+                        dl.append(clean(e))
+                    elif e["ev"] == "StormEnd" and e["crashed"]:
+                        sl.append(dict(ev="ConcCall", caller="(instance crashed)", peer=False, msg="crash", account="", result="ok", got_share=False))
+                for module, ls in (("SessionTrace", sl), ("DkgTrace", dl)):
+                    ok, violated, pos, extra = validate(module, ls, ["PeersOnly"], wd, name=module + "Replay%d" % attempt)
+                    if not ok:
+                        print(json.dumps(ls[pos - 2] if pos and pos >= 2 else None))
+                        print("VIOLATION property=%s replay=%s" % (prop, path))
+                        return 1
+            print("replay: 4 storms accepted")
+            return 0
         evs, rc, err = run_dkgdrv([sc], wd, "replay", dirk=build_dirk() if "-bin-" in str(sc.get("id", "")) else None)
         lines = []
         if obj["module"] == "ClusterTrace":
